@@ -29,7 +29,11 @@ UNICODE_POOL = ["é", "é", "éa", "ü", "日本", "日", "本", "\U0001d11e",
                 "\U0001d11e\U0001d11e", "a\U0001d11e", "​", " ", "  ", "ß", "ss", "İ", "i̇",
                 "ا", "א", "\U0001f642", " ", "٣", "３", "1٣", "：", "1："]
 SPECIAL_POOL = ["AND", " AND ", "-", ",", "a,b", "a-b", "None", "nan", "NaN", "<NA>", "0.0", "1e3", "\t", "x\ty", "'",
-                '"', "\\", "%", "{}", "[]", "\n", "a\nb", "\x00", "1\x00"]
+                '"', "\\", "%", "{}", "[]", "\n", "a\nb"]
+# canonically / compatibly equivalent but distinct strings (NFC vs NFD vs NFKC): different rows must stay different
+EQUIV_SETS = [["caf\u00e9", "cafe\u0301"], ["\u00c5", "A\u030a", "\u212b"], ["\ud55c", "\u1112\u1161\u11ab"],
+              ["\u00f1", "n\u0303"], ["\ufb01", "fi"], ["\uff13", "3"], ["\u2126", "\u03a9"], ["\u00e9", "e\u0301"],
+              ["\u1e9b\u0323", "\u1e9b\u0323".encode().decode(), "\u017f\u0323\u0307"], ["\u00bd", "1\u20442"], ["\u2460", "1"]]
 FAMILIES = {"prefix": PREFIX_POOL, "delim": DELIM_POOL, "unicode": UNICODE_POOL, "special": SPECIAL_POOL}
 ALPHABETS = {"prefix": "1a", "delim": "0123456789:", "unicode": "éé\U0001d11e1:", "special": "-,:A ",
              "digits": "0123456789"}
@@ -41,6 +45,13 @@ def rand_str(rng, alphabet, maxlen):
 
 
 def column_pool(rng, fam):
+    if fam == "equiv":
+        pool = []
+        for grp in rng.sample(EQUIV_SETS, rng.randint(1, 3)):
+            pool.extend(grp)
+        if rng.random() < 0.5:
+            pool = [rng.choice(["", "x", "1"]) + v + rng.choice(["", "y"]) for v in pool] if rng.random() < 0.5 else pool + ["a"]
+        return pool
     k = rng.randint(2, 7)
     pool = []
     base = FAMILIES.get(fam)
@@ -67,13 +78,15 @@ def gen_case(rng):
     nf = rng.randint(2, 6)
     r = rng.random()
     nrows = rng.randint(5, 30) if r < 0.6 else (rng.randint(30, 100) if r < 0.9 else rng.randint(100, 200))
+    if rng.random() < 0.05:
+        nrows = rng.randint(1, 2)         # one-row and two-row frames
     names = []
     for i in range(nf):
         nm = rng.choice(NAME_POOL) + str(i)
         names.append(nm)
     label = rng.choice(["label", "y", "target"])
     lab_pos = rng.randint(0, nf)
-    fams = [rng.choice(["prefix", "delim", "unicode", "special", "digits", "delim", "prefix"]) for _ in range(nf)]
+    fams = [rng.choice(["prefix", "delim", "unicode", "special", "digits", "delim", "prefix", "equiv"]) for _ in range(nf)]
     pools = [column_pool(rng, f) for f in fams]
     cols = [[rng.choice(pools[j]) for _ in range(nrows)] for j in range(nf)]
     order = rng.randint(2, min(4, nf))
@@ -86,6 +99,17 @@ def gen_case(rng):
                 t = rng.choice(tuples)
                 for q, j in enumerate(pos):
                     cols[j][i] = t[q]
+    if rng.random() < 0.15 and nf > order:
+        # an INPUT column whose name is the name a generated interaction will get ('site AND zone' next to 'site', 'zone'):
+        # the result then has two columns of that name; the frame is judged by position.  Never two GENERATED names alike.
+        victim = rng.randrange(nf)
+        others = [names[j] for j in range(nf) if j != victim]
+        comb = [others[j] for j in sorted(rng.sample(range(len(others)), order))]
+        trial = list(names)
+        trial[victim] = " AND ".join(comb)
+        gen = [" AND ".join(c) for c in itertools.combinations(trial, order)]
+        if len(set(gen)) == len(gen) and len(set(trial)) == len(trial):
+            names = trial
     labcol = [rng.choice(["0", "1"]) for _ in range(nrows)]
     all_names = names[:lab_pos] + [label] + names[lab_pos:]
     all_cols = cols[:lab_pos] + [labcol] + cols[lab_pos:]
@@ -251,6 +275,13 @@ def large_cases(seed):
 def fixed_cases():
     """the witness of the repaired defect, and its relatives"""
     out = []
+    out.append({"names": ["a", "b", "label"], "rows": [["caf\u00e9", "\u00c5", "0"], ["cafe\u0301", "\u00c5", "1"],
+                                                      ["caf\u00e9", "A\u030a", "0"], ["caf\u00e9", "\u212b", "1"],
+                                                      ["\ud55c", "3", "0"], ["\u1112\u1161\u11ab", "\uff13", "1"]],
+                "label": "label", "order": 2, "cap": 100, "is3mr": False})
+    out.append({"names": ["site", "zone", "site AND zone", "label"],
+                "rows": [["s1", "z1", "keep-1", "0"], ["s1", "z2", "keep-2", "1"], ["s2", "z1", "keep-3", "0"]],
+                "label": "label", "order": 2, "cap": 100, "is3mr": False})
     out.append({"names": ["a", "b", "label"], "rows": [["0", "AAAAAAAA3xyz", "0"], ["12AAAAAAAA", "xyz", "1"], ["0", "AAAAAAAA3xyz", "1"]],
                 "label": "label", "order": 2, "cap": 100, "is3mr": False})
     out.append({"names": ["a", "b", "c", "label"], "rows": [["5", "0", "000000003999", "0"], ["5", "1200000000", "999", "1"]],
